@@ -3,6 +3,7 @@
 #include <map>
 #include <memory>
 #include <string>
+#include <utility>
 #include <vector>
 #include "adm/document.hpp"
 #include "adm/elements.hpp"
@@ -26,6 +27,33 @@ namespace adm {
    */
   namespace xml {
     using NodePtr = rapidxml::xml_node<>*;
+
+    namespace detail {
+      /// Map from a parsed element to its not yet resolved references, which
+      /// iterates in the order in which the elements were first inserted
+      /// (i.e. the order of the file) and not in the order of their addresses.
+      template <typename Key, typename Value>
+      class PendingReferences {
+       public:
+        using Entries = std::vector<std::pair<Key, Value>>;
+        using const_iterator = typename Entries::const_iterator;
+
+        Value& operator[](const Key& key) {
+          auto it = index_.find(key);
+          if (it == index_.end()) {
+            it = index_.emplace(key, entries_.size()).first;
+            entries_.emplace_back(key, Value{});
+          }
+          return entries_[it->second].second;
+        }
+        const_iterator begin() const { return entries_.begin(); }
+        const_iterator end() const { return entries_.end(); }
+
+       private:
+        Entries entries_;
+        std::map<Key, std::size_t> index_;
+      };
+    }  // namespace detail
 
     AudioObjectInteraction parseAudioObjectInteraction(NodePtr node);
     GainInteractionRange parseGainInteractionRange(std::vector<NodePtr> nodes);
@@ -112,21 +140,21 @@ namespace adm {
       boost::optional<FrameHeader> frameHeader_;
 
       // clang-format off
-      std::map<std::shared_ptr<AudioProgramme>, std::vector<AudioContentId>> programmeContentRefs_;
-      std::map<std::shared_ptr<AudioContent>, std::vector<AudioObjectId>> contentObjectRefs_;
-      std::map<std::shared_ptr<AudioObject>, std::vector<AudioObjectId>> objectObjectRefs_;
-      std::map<std::shared_ptr<AudioObject>, std::vector<AudioObjectId>> objectComplementaryObjectRefs_;
-      std::map<std::shared_ptr<AudioObject>, std::vector<AudioPackFormatId>> objectPackFormatRefs_;
-      std::map<std::shared_ptr<AudioObject>, std::vector<AudioTrackUidId>> objectTrackUidRefs_;
-      std::map<std::shared_ptr<AudioTrackUid>, AudioTrackFormatId> trackUidTrackFormatRef_;
-      std::map<std::shared_ptr<AudioTrackUid>, AudioChannelFormatId> trackUidChannelFormatRef_;
-      std::map<std::shared_ptr<AudioTrackUid>, AudioPackFormatId> trackUidPackFormatRef_;
-      std::map<std::shared_ptr<AudioPackFormat>, std::vector<AudioChannelFormatId>> packFormatChannelFormatRefs_;
-      std::map<std::shared_ptr<AudioPackFormat>, std::vector<AudioPackFormatId>> packFormatPackFormatRefs_;
-      std::map<std::shared_ptr<AudioTrackFormat>, AudioStreamFormatId> trackFormatStreamFormatRef_;
-      std::map<std::shared_ptr<AudioStreamFormat>, AudioChannelFormatId> streamFormatChannelFormatRef_;
-      std::map<std::shared_ptr<AudioStreamFormat>, AudioPackFormatId> streamFormatPackFormatRef_;
-      std::map<std::shared_ptr<AudioStreamFormat>, std::vector<AudioTrackFormatId>> streamFormatTrackFormatRefs_;
+      detail::PendingReferences<std::shared_ptr<AudioProgramme>, std::vector<AudioContentId>> programmeContentRefs_;
+      detail::PendingReferences<std::shared_ptr<AudioContent>, std::vector<AudioObjectId>> contentObjectRefs_;
+      detail::PendingReferences<std::shared_ptr<AudioObject>, std::vector<AudioObjectId>> objectObjectRefs_;
+      detail::PendingReferences<std::shared_ptr<AudioObject>, std::vector<AudioObjectId>> objectComplementaryObjectRefs_;
+      detail::PendingReferences<std::shared_ptr<AudioObject>, std::vector<AudioPackFormatId>> objectPackFormatRefs_;
+      detail::PendingReferences<std::shared_ptr<AudioObject>, std::vector<AudioTrackUidId>> objectTrackUidRefs_;
+      detail::PendingReferences<std::shared_ptr<AudioTrackUid>, AudioTrackFormatId> trackUidTrackFormatRef_;
+      detail::PendingReferences<std::shared_ptr<AudioTrackUid>, AudioChannelFormatId> trackUidChannelFormatRef_;
+      detail::PendingReferences<std::shared_ptr<AudioTrackUid>, AudioPackFormatId> trackUidPackFormatRef_;
+      detail::PendingReferences<std::shared_ptr<AudioPackFormat>, std::vector<AudioChannelFormatId>> packFormatChannelFormatRefs_;
+      detail::PendingReferences<std::shared_ptr<AudioPackFormat>, std::vector<AudioPackFormatId>> packFormatPackFormatRefs_;
+      detail::PendingReferences<std::shared_ptr<AudioTrackFormat>, AudioStreamFormatId> trackFormatStreamFormatRef_;
+      detail::PendingReferences<std::shared_ptr<AudioStreamFormat>, AudioChannelFormatId> streamFormatChannelFormatRef_;
+      detail::PendingReferences<std::shared_ptr<AudioStreamFormat>, AudioPackFormatId> streamFormatPackFormatRef_;
+      detail::PendingReferences<std::shared_ptr<AudioStreamFormat>, std::vector<AudioTrackFormatId>> streamFormatTrackFormatRefs_;
       // clang-format on
 
       /// used to keep track of element IDs ourselves to avoid having it
@@ -138,7 +166,8 @@ namespace adm {
       void add(std::shared_ptr<Element> el);
 
       template <typename Src, typename TargetId>
-      void resolveReferences(const std::map<Src, std::vector<TargetId>>& map) {
+      void resolveReferences(
+          const detail::PendingReferences<Src, std::vector<TargetId>>& map) {
         for (const auto& entry : map) {
           for (const auto& id : entry.second) {
             if (auto element = idMap_.lookup(id)) {
@@ -151,11 +180,11 @@ namespace adm {
       }
 
       void resolveTrackUidReferences(
-          const std::map<std::shared_ptr<AudioObject>,
-                         std::vector<AudioTrackUidId>>& map);
+          const detail::PendingReferences<std::shared_ptr<AudioObject>,
+                                          std::vector<AudioTrackUidId>>& map);
 
       template <typename Src, typename Target>
-      void resolveReference(const std::map<Src, Target>& map) {
+      void resolveReference(const detail::PendingReferences<Src, Target>& map) {
         for (const auto& entry : map) {
           const auto& id = entry.second;
           if (auto element = idMap_.lookup(id)) {
